@@ -2,7 +2,9 @@ package props
 
 import (
 	"encoding/binary"
+	"fmt"
 	"net"
+	"strings"
 	"testing"
 
 	kcp "github.com/xtaci/kcp-go/v5"
@@ -113,6 +115,110 @@ func TestC19ForeignConvOOB(t *testing.T) {
 		rec.Case(hx.Hash64(cipher, fec, convA, convB, n), genuineSeen, cl...)
 		if rec.WantSample() {
 			rec.Sample(map[string]any{"cipher": cipher, "fec": fec, "payload_len": n, "convA": convA, "convB": convB})
+		}
+	})
+}
+
+// pokeClosedOOB calls SendOOB on sessions that have been closed, the way a
+// heartbeat goroutine that has not yet noticed the Close would. Whether a call
+// is refused or silently dropped is not specified; its buffer must go back to
+// the pool exactly once either way (the pool sanitizer reports otherwise).
+func pokeClosedOOB(s *sim.SessSim, sess []*kcp.UDPSession, calls int) (refused int) {
+	for i := 0; i < calls; i++ {
+		for _, x := range sess {
+			if x == nil {
+				continue
+			}
+			if err := x.SendOOB([]byte{0xC1, byte(i), 3, 4, 5, 6, 7, 8}); err != nil {
+				refused++
+			}
+		}
+		if i%4 == 3 {
+			s.Quiesce()
+		}
+	}
+	s.Quiesce()
+	return
+}
+
+// TestC19ClosedSession: OOB sends during a transfer, then on an end that is
+// closed in mid-transfer or after it, under the buffer-pool sanitizer: an OOB
+// packet that is refused or dropped must not hand its buffer to the pool
+// twice - the pool is shared by every session of the process, and a buffer
+// with two owners shows up as corrupted OOB messages and stream bytes
+// elsewhere. A second pair then runs on the same pool under the C01 / wire
+// oracles.
+func TestC19ClosedSession(t *testing.T) {
+	rec := hx.NewRecorder(t)
+	rapid.Check(t, func(rt *rapid.T) {
+		cfg := drawPairCfg(rt, pairGenOpts{FECMode: 1})
+		fs := sim.DrawFateScript(rt, sim.FateOpts{MaxExplicit: 8, MaxRegimes: 2, MaxRegLen: 80, MaxDelay: 300, MaxLossPm: 200})
+		app := drawSessApps(rt, pairMSS(cfg), 12, 40_000)
+		if cfg.Listener && len(app[0].Writes) == 0 {
+			app[0].Writes = []int{1}
+		}
+		mode := rapid.SampledFrom([]int{kcp.VerifPoolQuarantine, kcp.VerifPoolLIFO}).Draw(rt, "poolMode")
+		closeAt := int64(rapid.SampledFrom([]int{1, 12, 40, 150, 1000, -1}).Draw(rt, "closeAtMs")) // -1: only after the transfer
+		calls := rapid.IntRange(1, 12).Draw(rt, "callsAfterClose")
+		var pool kcp.VerifPoolStats
+		refused, sentLive := 0, 0
+		rapid.SyncTest(rt, func(rt *rapid.T) {
+			kcp.VerifPoolMode(mode, 50000, false)
+			defer kcp.VerifPoolMode(kcp.VerifPoolOff, 0, false)
+			s := sim.NewSessSim(cfg.ClockOff, cfg.EntropySeed)
+			p, err := sim.NewPair(s, cfg, app)
+			if err != nil {
+				rt.Fatalf("setup: %v", err)
+			}
+			setPairLinks(s, p, fs)
+			reads := 0
+			p.OnRead = func(r, n int, err error) {
+				reads++
+				for e := 0; e < 2; e++ {
+					if p.Sess[e] != nil && reads%3 == 0 {
+						if p.Sess[e].SendOOB([]byte{0xC0, byte(reads), 1, 2, 3, 4}) == nil {
+							sentLive++
+						}
+					}
+				}
+			}
+			if closeAt >= 0 {
+				err = p.Run(closeAt, false)
+			} else {
+				err = p.Run(fs.EndTime()+600_000, false)
+			}
+			if err != nil {
+				rt.Fatalf("C19 (closed session): %v\ncase: %+v", err, describePair(cfg, fs, app))
+			}
+			sess := []*kcp.UDPSession{p.Sess[0], p.Sess[1]}
+			// close end 0 first and keep using it, then everything else
+			if p.Sess[0] != nil {
+				p.Sess[0].Close()
+			}
+			refused += pokeClosedOOB(s, sess[:1], calls)
+			p.Finish(nil)
+			refused += pokeClosedOOB(s, sess, calls)
+			s.Drain(10_000)
+			pool = kcp.VerifPoolReport()
+		})
+		if len(pool.Faults) > 0 {
+			rt.Fatalf("C19: an out-of-band send on a closed session broke the buffer pool's one-owner rule (pool sanitizer mode %d): %s\ncase: %+v", mode, strings.Join(pool.Faults, "\n"), describePair(cfg, fs, app))
+		}
+		cl := []string{fmt.Sprintf("pool_mode_%d", mode)}
+		if closeAt >= 0 {
+			cl = append(cl, "closed_mid_transfer")
+		}
+		if refused > 0 {
+			cl = append(cl, "send_on_closed_session_refused")
+		}
+		if sentLive > 0 {
+			cl = append(cl, "oob_sent_while_open")
+		}
+		rec.Case(hx.Hash64(describePair(cfg, fs, app), mode, closeAt, calls), refused > 0 && sentLive > 0, cl...)
+		if rec.WantSample() {
+			dd := describePair(cfg, fs, app)
+			dd["calls_on_closed_session"], dd["refused"], dd["pool_gets"], dd["pool_puts"] = calls, refused, pool.Gets, pool.Puts
+			rec.Sample(dd)
 		}
 	})
 }
